@@ -30,43 +30,52 @@ from . import core
 SENTINEL = 987654.25
 
 # ---------------------------------------------------------------- configurations
-COMMON_INV = ["Aligned", "Owned", "ArrShared", "OrderFree", "Bounded"]
+COMMON_INV = ["Aligned", "Owned", "ArrShared", "OrderFree", "Bounded", "TlValid"]
 
 CFGS = {
     # name: constants
     "em3": dict(InitVals="ValsEm", EmLists="ListsEm", EvLists="NoLists", TimeLists="NoLists", Times="{0}",
-                MinRs="MinRsAll", MutRs="{0, 3}", MinDists="{0}", MaxDrops=12, MaxEms=3, MaxRefs=6, MaxEv=3,
+                MinRs="MinRsAll", MutRs="{0, 3}", MinDists="{0}", TlLists="NoLists", MinDurs="{0}", MaxDrops=12, MaxEms=3, MaxRefs=6, MaxEv=3,
                 MaxTcs=0, MaxTrks=0, MaxLen=4, Depth=3, Ops="OpsEm"),
     "em4": dict(InitVals="ValsEm", EmLists="ListsEm", EvLists="NoLists", TimeLists="NoLists", Times="{0}",
-                MinRs="MinRsAll", MutRs="{0, 3}", MinDists="{0}", MaxDrops=14, MaxEms=3, MaxRefs=6, MaxEv=3,
+                MinRs="MinRsAll", MutRs="{0, 3}", MinDists="{0}", TlLists="NoLists", MinDurs="{0}", MaxDrops=14, MaxEms=3, MaxRefs=6, MaxEv=3,
                 MaxTcs=0, MaxTrks=0, MaxLen=4, Depth=4, Ops="OpsEm"),
     "em5": dict(InitVals="ValsEm", EmLists="ListsEm2", EvLists="NoLists", TimeLists="NoLists", Times="{0}",
-                MinRs="{0}", MutRs="{0}", MinDists="{0}", MaxDrops=12, MaxEms=3, MaxRefs=5, MaxEv=3,
+                MinRs="{0}", MutRs="{0}", MinDists="{0}", TlLists="NoLists", MinDurs="{0}", MaxDrops=12, MaxEms=3, MaxRefs=5, MaxEv=3,
                 MaxTcs=0, MaxTrks=0, MaxLen=3, Depth=5, Ops="OpsEm"),
     "df3": dict(InitVals="ValsDf", EmLists="ListsDf", EvLists="NoLists", TimeLists="NoLists", Times="{0}",
-                MinRs="MinRsAll", MutRs="{0, 3}", MinDists="MinDistsDf", MaxDrops=12, MaxEms=3, MaxRefs=6, MaxEv=3,
+                MinRs="MinRsAll", MutRs="{0, 3}", MinDists="MinDistsDf", TlLists="NoLists", MinDurs="{0}", MaxDrops=12, MaxEms=3, MaxRefs=6, MaxEv=3,
                 MaxTcs=0, MaxTrks=0, MaxLen=4, Depth=3, Ops="OpsEm"),
     "df4": dict(InitVals="ValsDf", EmLists="ListsDf", EvLists="NoLists", TimeLists="NoLists", Times="{0}",
-                MinRs="MinRsAll", MutRs="{0, 3}", MinDists="MinDistsDf", MaxDrops=14, MaxEms=3, MaxRefs=6, MaxEv=3,
+                MinRs="MinRsAll", MutRs="{0, 3}", MinDists="MinDistsDf", TlLists="NoLists", MinDurs="{0}", MaxDrops=14, MaxEms=3, MaxRefs=6, MaxEv=3,
                 MaxTcs=0, MaxTrks=0, MaxLen=4, Depth=4, Ops="OpsEm"),
     "tc4": dict(InitVals="ValsTc", EmLists="ListsTc", EvLists="EvListsTc", TimeLists="TimeListsTc", Times="TimesTc",
-                MinRs="{0}", MutRs="{0, 3}", MinDists="{0}", MaxDrops=16, MaxEms=8, MaxRefs=5, MaxEv=4,
+                MinRs="{0}", MutRs="{0, 3}", MinDists="{0}", TlLists="NoLists", MinDurs="{0}", MaxDrops=16, MaxEms=8, MaxRefs=5, MaxEv=4,
                 MaxTcs=2, MaxTrks=0, MaxLen=3, Depth=4, Ops="OpsTc"),
     "tc5": dict(InitVals="ValsTc", EmLists="ListsTc", EvLists="EvListsTc", TimeLists="TimeListsTc", Times="TimesTc",
-                MinRs="{0}", MutRs="{3}", MinDists="{0}", MaxDrops=16, MaxEms=8, MaxRefs=5, MaxEv=4,
+                MinRs="{0}", MutRs="{3}", MinDists="{0}", TlLists="NoLists", MinDurs="{0}", MaxDrops=16, MaxEms=8, MaxRefs=5, MaxEv=4,
                 MaxTcs=2, MaxTrks=0, MaxLen=3, Depth=5, Ops="OpsTc"),
     "tr3": dict(InitVals="ValsTr", EmLists="ListsTr", EvLists="NoLists", TimeLists="TimeListsTr", Times="TimesTc",
-                MinRs="{0}", MutRs="{0, 3}", MinDists="{0}", MaxDrops=16, MaxEms=0, MaxRefs=6, MaxEv=0,
+                MinRs="{0}", MutRs="{0, 3}", MinDists="{0}", TlLists="NoLists", MinDurs="{0}", MaxDrops=16, MaxEms=0, MaxRefs=6, MaxEv=0,
                 MaxTcs=0, MaxTrks=3, MaxLen=4, Depth=3, Ops="OpsTr"),
+    "tl3": dict(InitVals="ValsTr", EmLists="ListsTr", EvLists="NoLists", TimeLists="TimeListsTr", Times="TimesTc",
+                MinRs="{0}", MutRs="{3}", MinDists="{0}", TlLists="TlListsA", MinDurs="MinDursA", MaxDrops=16, MaxEms=0, MaxRefs=4, MaxEv=0,
+                MaxTcs=0, MaxTrks=2, MaxLen=3, Depth=3, Ops="OpsTl"),
+    "tl4": dict(InitVals="ValsTr", EmLists="ListsTr", EvLists="NoLists", TimeLists="TimeListsTr", Times="TimesTc",
+                MinRs="{0}", MutRs="{3}", MinDists="{0}", TlLists="TlListsA", MinDurs="MinDursA", MaxDrops=16, MaxEms=0, MaxRefs=4, MaxEv=0,
+                MaxTcs=0, MaxTrks=2, MaxLen=3, Depth=4, Ops="OpsTl"),
+    "tl5": dict(InitVals="ValsTr", EmLists="ListsTr", EvLists="NoLists", TimeLists="TimeListsTr", Times="TimesTc",
+                MinRs="{0}", MutRs="{3}", MinDists="{0}", TlLists="TlListsA", MinDurs="MinDursA", MaxDrops=16, MaxEms=0, MaxRefs=4, MaxEv=0,
+                MaxTcs=0, MaxTrks=2, MaxLen=3, Depth=5, Ops="OpsTl"),
     "tr4": dict(InitVals="ValsTr", EmLists="ListsTr", EvLists="NoLists", TimeLists="TimeListsTr", Times="TimesTc",
-                MinRs="{0}", MutRs="{0, 3}", MinDists="{0}", MaxDrops=16, MaxEms=0, MaxRefs=6, MaxEv=0,
+                MinRs="{0}", MutRs="{0, 3}", MinDists="{0}", TlLists="NoLists", MinDurs="{0}", MaxDrops=16, MaxEms=0, MaxRefs=6, MaxEv=0,
                 MaxTcs=0, MaxTrks=3, MaxLen=4, Depth=4, Ops="OpsTr"),
     "tr5": dict(InitVals="ValsTr", EmLists="ListsTr", EvLists="NoLists", TimeLists="TimeListsTr", Times="TimesTc",
-                MinRs="{0}", MutRs="{3}", MinDists="{0}", MaxDrops=16, MaxEms=0, MaxRefs=6, MaxEv=0,
+                MinRs="{0}", MutRs="{3}", MinDists="{0}", TlLists="NoLists", MinDurs="{0}", MaxDrops=16, MaxEms=0, MaxRefs=6, MaxEv=0,
                 MaxTcs=0, MaxTrks=3, MaxLen=3, Depth=5, Ops="OpsTr"),
 }
-QUICK = ["em3", "df3", "tc4", "tr3"]
-THOROUGH = ["em4", "df4", "em5", "tc5", "tr4"]
+QUICK = ["em3", "df3", "tc4", "tr3", "tl3"]
+THOROUGH = ["em4", "df4", "em5", "tc5", "tr4", "tl4"]
 
 
 def cfg_text(name: str, observe: str = "ObservePrint") -> str:
@@ -106,6 +115,7 @@ class World:
         self.ev = []
         self.tcs = []
         self.trks = []
+        self.tls = []
         self.arr = None
 
     # ---- one public call per spec action; returns the name of the exception raised ("" if none)
@@ -168,6 +178,14 @@ class World:
                 self.trks.append(DropletTrack(self.trks[o["k"] - 1]))
             elif op == "TrkIndex":
                 self.refs.append(self.trks[o["k"] - 1][o["i"] - 1])
+            elif op == "TlNew":
+                from droplets.droplet_tracks import DropletTrackList
+
+                self.tls.append(DropletTrackList([self.trks[i - 1] for i in o["L"]]))
+            elif op == "TlSlice":
+                self.tls.append(self.tls[o["l"] - 1][o["lo"] : o["hi"]])
+            elif op == "TlRemoveShort":
+                self.tls[o["l"] - 1].remove_short_tracks(o["md"])
             else:
                 raise core.MachineryError(f"unknown op {op}")
         except core.MachineryError:
@@ -354,6 +372,17 @@ def compare(w: World, t, q, fails: list) -> None:
             fails.append("track-times")
         if len(r.droplets) != len(tr["objs"]):
             fails.append("track-length")
+    if len(w.tls) != len(t["tls"]):
+        fails.append("tracklists-count")
+    else:
+        from droplets.droplet_tracks import DropletTrackList
+
+        for l, ids in enumerate(t["tls"]):
+            real = w.tls[l]
+            if type(real) is not DropletTrackList:
+                fails.append("tracklist-class")
+            if len(real) != len(ids) or any(real[i] is not w.trks[k - 1] for i, k in enumerate(ids) if i < len(real)):
+                fails.append("tracklist-members (a track list holds the caller's track objects, in order)")
     if fails:
         return
     # ---- values and aliasing
